@@ -49,7 +49,7 @@ CLAIMS.update({
              "C02_shift_preserves_molecule / C02_labels_valid_below_100 / C02_label_100_counterexample: the per-level label renaming is invisible to the semantics exactly while labels stay below 100. "
              "C02_gate / C02_gate_transparent state the validation gate outright; C02_marker_tables_disjoint is decided by the kernel over the regenerated "
              "marker tables. Every non-empty result of well-formed, meaningless and ungrammatical inputs under random option combinations is judged by "
-             "the executable Spec (parses, sanitises, one fragment, glycan elements only, no marker atom, no empty branch), also through convert.",
+             "the executable Spec (parses, sanitises, one fragment, glycan elements only, no marker atom, no empty branch), also through convert. C02_every_delivery_released / C02_get_smiles_stable over the Model of the Glycan object's life (construction, eager / lazy assembly, cache, release gate; tied by feeding it the walk / merge / release results observed inside the code): nothing leaves the object without having passed the gate, for every option combination and every call. C02_sanitize_rr_sound: the )) rule of sanitize_smiles keeps the molecule for every string.",
         note="partial: valence / chemical sanity is RDKit's verdict (the gate's oracle), not a Lean predicate; the reactor's placeholder substitution (assemble_chains) is covered by the table theorem and by correspondence. " + NOTE, ref="6 C02"),
     "C05": dict(
         technique="Lean 4 theorems over the whole residue tree (atom balance for every counting predicate: C05_tree_atoms; ring-closure and bond balance of the Spec molecule: C05_tree_rings; per-splice corollaries of the graft lemma) + RDKit balance over the complete residue vocabulary",
